@@ -225,12 +225,153 @@ def run_walk(repo, tier, seed, only=None):
             s = NodePath.get_str_path(p)
             back = list(NodePath.get_list_path(s))
             if back != list(p) and all(isinstance(x, int) or (isinstance(x, str) and x.replace('_', 'a').isalnum()) for x in p):
-                R.fail('bounded:C17.path-converted-to-text-and-parsed-back-is-unchanged', f'path {list(p)!r} -> {s!r} -> {back!r}', {'family': 'walk', 'docs': [text]})
+                R.fail('bounded:C09+C17.path-converted-to-text-and-parsed-back-is-unchanged', f'path {list(p)!r} -> {s!r} -> {back!r}', {'family': 'walk', 'docs': [text]})
                 break
     return R.result()
 
 
+def ref_split(s):
+    """independent reference reading of a path text: path := first rest*, first := name | index, rest := '.' name | index,
+    name := [a-zA-Z0-9_]+, index := '[' '-'? digits ']'.  Returns the component list, or None for a text that is not a path."""
+    import string
+    namech = set(string.ascii_letters + string.digits + '_')
+    out, i, n = [], 0, len(s)
+    while i < n:
+        if s[i] == '[':
+            j = s.find(']', i)
+            body = s[i + 1:j] if j > 0 else ''
+            digits = body[1:] if body.startswith('-') else body
+            if j < 0 or not digits or not all(ch in string.digits for ch in digits):
+                return None
+            out.append(int(body))
+            i = j + 1
+            continue
+        if s[i] == '.':
+            if i == 0:
+                return None
+            i += 1
+        elif i != 0:
+            return None
+        j = i
+        while j < n and s[j] in namech:
+            j += 1
+        if j == i:
+            return None
+        out.append(s[i:j])
+        i = j
+    return out
+
+
+def run_pathtext(repo, tier, seed, only=None):
+    """NodePath.split_path / get_list_path / get_str_path against the reference reading: every text over a small alphabet up to a length,
+    and component lists with multi-digit and negative indices"""
+    load(repo)
+    from awesomeyaml.nodes.node_path import NodePath
+    import itertools
+    R = Runner('pathtext')
+    name = 'bounded:C09+C17.path-text-is-read-as-the-components-it-spells'
+    alphabet = 'a0_.[]-1'
+    maxlen = 5 if tier == 'quick' else 7
+    bad = 0
+    for ln in range(0, maxlen + 1):
+        for tup in itertools.product(alphabet, repeat=ln):
+            s = ''.join(tup)
+            want = ref_split(s)
+            try:
+                got = list(NodePath.split_path(s))
+            except ValueError:
+                got = None
+            R.cases += 1
+            R.extra_distinct = getattr(R, 'extra_distinct', 0) + 1      # all texts are different by construction
+            if got != want and bad < 5:
+                bad += 1
+                R.fail(name, f'text {s!r}: read as {got!r}, spells {want!r}', {'family': 'pathtext', 'docs': [s]})
+    rng = random.Random(17500 + seed)
+    pool = ['a', 'b0', '_u', 'k_1', '0', '12', 0, 1, 9, 10, 11, 12, 21, 100, 1234, -1, -10, -123]
+    for _ in range(n_cases(tier, 400, 6000)):
+        comps = [rng.choice(pool) for _ in range(rng.randint(1, 4))]
+        s = NodePath.get_str_path(comps)
+        R.case(s, {'path': repr(comps)})
+        try:
+            back = list(NodePath.get_list_path(s))
+        except ValueError as e:
+            back = e
+        if back != comps:
+            R.fail('bounded:C09+C17.path-converted-to-text-and-parsed-back-is-unchanged', f'path {comps!r} -> {s!r} -> {back!r}', {'family': 'pathtext', 'docs': [s]})
+            break
+    return R.result()
+
+
+REQ = '__REQ__'
+
+
+def run_c14(repo, tier, seed, only=None):
+    """C14 over merge sequences: documents of one shape (mappings, depth <= 3) whose leaves are values or placeholders, leaves and
+    containers optionally tagged !force / !weak; which placeholders survive is computed per leaf path from the statement of C03
+    (highest priority wins, latest among equals); the build must fail exactly when one survives, list exactly the surviving
+    paths, and evaluate nothing before failing (a probe function counts calls)"""
+    ay = load(repo)
+    from .b_merge import same_shape_docs
+    import builtins
+    rng = random.Random(14000 + seed)
+    R = Runner('C14')
+    name = 'bounded:C14.build-fails-exactly-when-a-placeholder-survives-and-lists-every-surviving-path'
+    calls = []
+    builtins._verif_c14_probe = lambda: calls.append(1) or 7
+    try:
+        fixed = [[G.mp([('a', G.mp([('b', G.mp([('c', G.leaf(REQ))]))]))]), G.mp([('a', G.mp([('b', G.mp([('c', G.leaf(1))]))], 'weak'))])],
+                 [G.mp([('a', G.mp([('b', G.mp([('c', G.leaf(REQ))]))], 'force'))]), G.mp([('a', G.mp([('b', G.mp([('c', G.leaf(1))]))]))])]]
+        cases = list(fixed)
+        for _ in range(n_cases(tier, 250, 4000)):
+            docs = same_shape_docs(rng, rng.randint(1, 4))
+
+            def plant(t, p):
+                kind, body, tag = t
+                if kind == 'leaf':
+                    return (kind, REQ, None) if rng.random() < p else t
+                return (kind, [(k, plant(v, p)) for k, v in body], tag)
+            docs = [plant(d, 0.5 if i == 0 else 0.15) for i, d in enumerate(docs)]
+            cases.append(docs)
+        for docs in cases:
+            texts = [G.render(d).replace("'" + REQ + "'", '!required ') for d in docs]
+            texts[0] = texts[0][:-1] + (', ' if len(texts[0]) > 2 else '') + 'zz_probe: !call:builtins._verif_c14_probe {}}'
+            exp = G.priority_fold(docs)
+            want = sorted(repr('.'.join(p)) for p, v, _ in G.leaf_paths(('map', [(k, _as_tree(v)) for k, v in exp.items()], None)) if v == REQ)
+            del calls[:]
+            try:
+                ay.Config.build(*texts, raw_yaml=True)
+                got = ('ok', None)
+            except ValueError as e:
+                msg = str(e)
+                got = ('missing', sorted(l.strip() for l in msg.split('\n')[1:])) if 'required nodes have not been set' in msg else ('err', msg[:200])
+            except Exception as e:
+                got = ('err', f'{type(e).__name__}: {e}'[:200])
+            R.case(tuple(texts), {'docs': texts, 'surviving': want})
+            ok = (got == ('ok', None) and len(calls) == 1) if not want else (got == ('missing', want) and not calls)
+            if not ok:
+                R.fail(name, f'docs={texts}: surviving placeholders {want}, build gave {got!r}, probe evaluated {len(calls)} time(s)'[:800], {'family': 'c14', 'docs': texts})
+    finally:
+        del builtins._verif_c14_probe
+    return R.result()
+
+
+def _as_tree(v):
+    if isinstance(v, dict):
+        return ('map', [(k, _as_tree(x)) for k, x in v.items()], None)
+    if isinstance(v, list):
+        return ('seq', [_as_tree(x) for x in v], None)
+    return ('leaf', v, None)
+
+
 def register3(R):
+    R.tasks.append(Bounded('bounded:C14-placeholders-over-merge-sequences', ('C14',), run_c14,
+                           '1-4 documents of one shape (mappings, depth <= 3, leaves values or !required, !force/!weak on leaves and containers); quick 250 / thorough 4000 sequences',
+                           stands_in_for='the composed merge deciding which placeholder is overwritten (its key loop and priority propagation are proved piecewise for C02/C03); '
+                                         'Config.check_missing itself is proved over the proved tree walk'))
+    R.tasks.append(Bounded('bounded:C17-path-text', ('C17', 'C09'), run_pathtext,
+                           'every text of length <= 5 (quick) / 7 (thorough) over the alphabet a 0 1 _ . [ ] - compared with an independent reading of the path grammar; '
+                           '400 / 6000 component lists of length <= 4 with multi-digit and negative indices converted to text and back',
+                           stands_in_for='NodePath.split_path / join_path (regular expression with look-around; outside the generated verification conditions)'))
     R.tasks.append(Bounded('bounded:C17-walk-lookup-and-path-text', ('C17', 'C14', 'C09'), run_walk,
                            'parsed documents of depth<=3 with mapping, list, function, path and placeholder nodes; quick 200 / thorough 3000 trees; path components alphanumeric names and integers',
                            stands_in_for='ComposedNode.nodes_with_paths (nested generator loops; its contract is ASSUMED by Config.check_missing and _require_all_new), get_node/_get_node, NodePath.split_path/join_path (regular expressions)'))
@@ -274,8 +415,12 @@ def run_c11(repo, tier, seed, only=None):
             if not isinstance(x, Bunch) or list(x.keys()) != list(node.keys()):
                 return path
             for k, v in x.items():
-                if isinstance(k, str) and k.isidentifier() and not k.startswith('_') and not hasattr(dict, k):
-                    if getattr(x, k) is not x[k]:
+                if isinstance(k, str) and k.isidentifier() and not (k.startswith('__') and k.endswith('__')) and not hasattr(dict, k):
+                    try:
+                        same = getattr(x, k) is x[k]
+                    except AttributeError:
+                        same = False
+                    if not same:
                         return path + (k,)
                 r = mapping_kinds(node.ayns.get_child(k), v, path + (k,))
                 if r is not None:
